@@ -75,7 +75,8 @@ PROPS = {
         "technique": "property-based testing (rapid): generated merge-plan trees executed by the real code vs. reference model of the survivors",
         "level_text": "Randomised exploration with shrinking over merge histories (built / opened / merged inputs, all deletion-bitmap shapes); every intermediate merge output is re-opened and compared with the model.",
         "level_note": "Trusts the reference model (merge = batch of surviving documents in segment order).",
-        "stages": [rapid_stage("merge-stored", "TestC05", 250, 1500)],
+        "stages": [rapid_stage("merge-stored", "TestC05", 250, 1500),
+                   {"name": "merge-fixed", "test": "TestC05Fixed", "tags": "verif", "quick": {"shards": 1, "timeout": 600}, "thorough": {"shards": 1, "timeout": 1500}}],
     },
     "C06": {
         "level": "exploration",
